@@ -54,7 +54,7 @@ type OpSpec struct {
 
 // Fault makes the operation's context done at a chosen instant.
 type Fault struct {
-	Model string `json:"model"` // "poll": inside the K-th Done()/Err() call; "step": while parked before evaluation step K
+	Model string `json:"model"` // "pre": before the entry point is called; "poll": inside the K-th Done()/Err() call; "step": while parked before evaluation step K
 	K     int    `json:"k"`
 	Err   string `json:"err"` // "canceled" or "deadline"
 }
@@ -156,7 +156,7 @@ func (s *Scenario) Validate() error {
 				if !o.IsExec() {
 					return fmt.Errorf("scenario: %s: fault on non-exec op", where)
 				}
-				if f.Model != "poll" && f.Model != "step" {
+				if f.Model != "poll" && f.Model != "step" && f.Model != "pre" {
 					return fmt.Errorf("scenario: %s: bad fault model %q", where, f.Model)
 				}
 				if f.Err != "canceled" && f.Err != "deadline" {
